@@ -1545,7 +1545,15 @@ where
                 relay.then_some(id)
             }
             Ok(None) => {
-                // FIXME: Still mark as relayed by this peer.
+                // If this is the announcement we already have, the relayer has it too:
+                // keep track of that, so that we don't relay it back to them.
+                if let Ok(Some(id)) = self.db.gossip().announcement_id(announcer, announcement) {
+                    let relayers = self.relayed_by.entry(id).or_default();
+
+                    if !relayers.contains(relayer) {
+                        relayers.push(*relayer);
+                    }
+                }
                 // FIXME: Refs announcements should not be delayed, since they are only sent
                 // to subscribers.
                 debug!(target: "service", "Ignoring stale announcement from {announcer} (t={timestamp})");
